@@ -5,18 +5,38 @@ import TB.Spec.ExportSpec
 import TB.Lemmas.RunB
 import TB.Props.C15
 namespace TB
-
+open TB.RB
 /-- permuting the torrent list, or listing torrents twice, yields the same sorted list of distinct info-hashes -/
 theorem C17_dedup_perm (ts ts' : List Torrent)
     (h : ∀ x, x ∈ ts.map (·.infoHash) ↔ x ∈ ts'.map (·.infoHash)) :
     (dedupTorrents (sortTorrents ts)).map (·.infoHash) = (dedupTorrents (sortTorrents ts')).map (·.infoHash) := by
-  sorry
+  apply strict_sorted_ext _ _ (dedup_sort_strict ts) (dedup_sort_strict ts')
+  intro x
+  rw [mem_dedup_sort_hash, mem_dedup_sort_hash]
+  exact h x
 
 /-- the candidate map is keyed by path: registering a path again (a scan directory repeated, nested scan
     directories, the export directory among them) does not change which paths are registered -/
 theorem C17_cache_idempotent (c : Cache) (len : Nat) (p : Path) (ino : Nat) :
     ∀ q, (∃ j, cacheGet (cacheInsert (cacheInsert c len p ino) len p ino) len = some j ∧ ∃ k, (q, k) ∈ j) ↔
          (∃ j, cacheGet (cacheInsert c len p ino) len = some j ∧ ∃ k, (q, k) ∈ j) := by
-  sorry
+  intro q
+  rw [cacheGet_cacheInsert, cacheGet_cacheInsert]
+  generalize ((cacheGet c len).getD []).filter (fun e => e.1 != p) = m'
+  simp only [Option.some.injEq, exists_eq_left', Option.getD_some]
+  have hf : ((p, ino) :: m').filter (fun e => e.1 != p) = m'.filter (fun e => e.1 != p) := by
+    simp
+  rw [hf]
+  constructor
+  · rintro ⟨k, hk⟩
+    rcases List.mem_cons.1 hk with e | hk
+    · exact ⟨k, e ▸ List.mem_cons_self⟩
+    · exact ⟨k, List.mem_cons_of_mem _ (List.mem_filter.1 hk).1⟩
+  · rintro ⟨k, hk⟩
+    by_cases hq : q = p
+    · exact ⟨ino, hq ▸ List.mem_cons_self⟩
+    · rcases List.mem_cons.1 hk with e | hk
+      · exact ⟨k, e ▸ List.mem_cons_self⟩
+      · exact ⟨k, List.mem_cons_of_mem _ (List.mem_filter.2 ⟨hk, by simpa using hq⟩)⟩
 
 end TB
